@@ -11,7 +11,7 @@ for g in /verif/tools/gen_*.py; do python3 $g > /dev/null 2>&1; done; exit 3; }
 cd /verif
 for p in "$@"; do
   out=$(VERIF_REPO=$wt VERIF_EVIDENCE_DIR=/verif/.work/mut_evidence VERIF_SEED=${VERIF_SEED:-1} ./check $p --tier quick 2>&1)
-  echo "$out" | grep -E "^VIOLATION|^KNOWN" | head -3 | cut -c1-200
+  echo "$out" | grep -E "^VIOLATION" | head -6 | cut -c1-200
   echo "$out" | tail -1
 done
 git -C /repo worktree remove --force $wt
